@@ -1280,8 +1280,10 @@ impl RustRuleEngine {
                 if self.config.debug_mode {
                     println!("  🎯 Activating agenda group: {}", group);
                 }
-                // Sync with both workflow engine and agenda manager immediately
-                self.workflow_engine.activate_agenda_group(group.clone());
+                // The activation takes effect immediately. It must not also be queued in the
+                // workflow engine: sync_workflow_agenda_activations() would apply the same
+                // activation a second time at the end of the cycle and clear the group's
+                // lock-on-active bookkeeping, letting a lock-on-active rule fire twice.
                 self.agenda_manager.set_focus(group);
             }
             ActionType::ScheduleRule {
